@@ -299,13 +299,19 @@ class StopEvent(Event):
     @model_serializer(mode="wrap")
     def custom_model_dump(self, handler: Any) -> dict[str, Any]:
         data = handler(self)
+        # this serializer replaces DictLikeModel.custom_model_dump (same name):
+        # keep the dynamic fields it would have included
+        if self._data:
+            data["_data"] = self._data
         # include _result in serialization for base StopEvent
         if self._result is not None:
             data["result"] = self._result
         return data
 
     def __repr__(self) -> str:
-        dict_items = {**self._data, **self.model_dump()}
+        fields = self.model_dump()
+        fields.pop("_data", None)  # dynamic fields are listed by name
+        dict_items = {**self._data, **fields}
         # Format as key=value pairs
         parts = [f"{k}={v!r}" for k, v in dict_items.items()]
         dict_str = ", ".join(parts)
